@@ -14,6 +14,9 @@ import warnings
 
 warnings.filterwarnings("ignore")
 
+# exact integer arithmetic on huge operands (C05): no limit on int <-> str conversion
+if hasattr(sys, "set_int_max_str_digits"):
+    sys.set_int_max_str_digits(0)
 VERIF = os.path.dirname(os.path.dirname(os.path.abspath(__file__)))
 REPO = os.environ.get("VERIF_REPO", "/repo")
 BUILD = os.path.join(VERIF, "_build")
